@@ -405,6 +405,21 @@ func TestVerifC01(t *testing.T) {
 			continue
 		}
 		c := vfC01Gen(k, caseID)
+		if i < n/4 {
+			// the first quarter are plain worlds: no authenticator delay and nothing held, so that nothing in
+			// them can wait on the handler's mutex (which would stop the bubble's clock) whatever the server does
+			c.AuthDelay = 0
+			for ci := range c.Conns {
+				for ai := range c.Conns[ci].Actions {
+					switch c.Conns[ci].Actions[ai].Kind {
+					case "auth_held":
+						c.Conns[ci].Actions[ai].Kind = "auth_good"
+					case "auth_held_bad":
+						c.Conns[ci].Actions[ai].Kind = "auth_bad"
+					}
+				}
+			}
+		}
 		k.Eval()
 		var kinds []string
 		for _, cs := range c.Conns {
